@@ -24,6 +24,9 @@ Qed.
 Lemma entry_done_post_grant p : entry_done p → post_grant p.
 Proof. unfold entry_done, post_grant. naive_solver. Qed.
 
+Lemma pending_of_ds_next l : pending_of (ds_next l) = l.
+Proof. by destruct l. Qed.
+
 Lemma acquirer_step cfg s it tid t sid n k z (P : spc → Prop) :
   SvInv cfg s → (∀ p p', P p → pc_le cfg p p' → P p') →
   v_thr s !! tid = Some t → acquirer t sid n k z → P (st_pc t) →
@@ -43,9 +46,10 @@ Proof.
   all: repeat case_match; subst; pair_norm; rewrite vset_pc_lookup; (case_decide; [|done]).
   all: autorewrite with svframe; rewrite ?Ht; simpl.
   all: try (intros [= <-]; simpl; intros c' Hc'; try (by apply elem_of_nil in Hc'); try (left; set_solver); fail).
-  - (* destroy *) intros [= <-]. simpl. intros c Hc. right. split; [done|].
-    unfold sess_destroy in Hc. unfold entry_of. destruct (v_sess s !! sid) as [l|]; simpl in Hc; [eauto|by apply elem_of_nil in Hc].
-  - (* unlock *) rewrite (mgr_unlock_thr_other _ _ _ _ _ _ Hq Ht) by done. simpl. intros [= <-]. simpl. intros c' Hc'. left. by right.
+  - (* destroy *) intros [= <-]. simpl. rewrite pending_of_ds_next. intros c Hc. right. split; [done|].
+    unfold sess_destroy in *. unfold entry_of. destruct (v_sess s !! sid) as [l0|]; simplify_eq/=; [eauto|by apply elem_of_nil in Hc].
+  - (* timer removal: fired *) intros [= <-]. simpl. rewrite pending_of_ds_next. intros c' Hc'. left. by right.
+  - (* unlock *) rewrite (mgr_unlock_thr_other _ _ _ _ _ _ Hq Ht) by done. simpl. intros [= <-]. simpl. rewrite pending_of_ds_next. intros c' Hc'. left. by right.
 Qed.
 
 Definition DsInv (s : svstate) : Prop := ∀ tid t sid c,
